@@ -36,6 +36,9 @@ pub struct OpRec {
     pub exited: u64,
     pub released_after: bool,
     pub result: Option<LRes>,
+    /// parked inside the store call, right before it queues for the writer lock (inner gate)
+    pub at_inner: bool,
+    pub released_inner: bool,
 }
 
 #[derive(Default)]
@@ -48,6 +51,36 @@ pub struct GState {
     pub inflight: usize,
     /// operations whose description starts with one of these pass the gates without being held
     pub auto_release: Vec<String>,
+    /// hold gated operations a third time: inside the store call, before they queue for the writer lock
+    pub inner_gated: bool,
+}
+
+thread_local! {
+    /// the gated operation this thread is executing inside the store (set by `GateKv::around`)
+    static INNER_OP: std::cell::RefCell<Option<(Arc<Gate>, usize)>> = const { std::cell::RefCell::new(None) };
+}
+
+/// Store hook for the inner gate: an operation that is about to queue for the writer lock (it holds
+/// nothing at that point) parks until the harness lets it continue.
+pub fn inner_gate_hook(ev: bitcask::verif::Ev) {
+    if let bitcask::verif::Ev::Acquire(r, _) = ev {
+        if r != bitcask::verif::WRITER {
+            return;
+        }
+        let cur = INNER_OP.try_with(|c| c.borrow().clone()).ok().flatten();
+        if let Some((g, id)) = cur {
+            let mut st = g.m.lock().unwrap();
+            if st.ops[id].released_inner {
+                return;
+            }
+            st.ops[id].at_inner = true;
+            g.cv.notify_all();
+            while !st.ops[id].released_inner {
+                st = g.cv.wait(st).unwrap();
+            }
+            st.ops[id].at_inner = false;
+        }
+    }
 }
 
 pub struct Gate {
@@ -89,7 +122,11 @@ impl GateKv {
             let mut st = g.m.lock().unwrap();
             id = st.ops.len();
             let gated = st.gated && !st.auto_release.iter().any(|p| desc.starts_with(p.as_str()));
-            st.ops.push(OpRec { desc, lop, released_before: !gated, entered: 0, done: false, exited: 0, released_after: !gated, result: None });
+            let inner = gated && st.inner_gated;
+            st.ops.push(OpRec { desc, lop, released_before: !gated, entered: 0, done: false, exited: 0, released_after: !gated, result: None, at_inner: false, released_inner: !inner });
+            if inner {
+                INNER_OP.with(|c| *c.borrow_mut() = Some((g.clone(), id)));
+            }
             st.inflight += 1;
             g.cv.notify_all();
             while !st.ops[id].released_before {
@@ -98,6 +135,7 @@ impl GateKv {
             st.ops[id].entered = stamp();
         }
         let r = f(&self.inner);
+        INNER_OP.with(|c| *c.borrow_mut() = None);
         {
             let mut st = g.m.lock().unwrap();
             st.ops[id].exited = stamp();
@@ -162,6 +200,30 @@ impl Gate {
         }
         true
     }
+    /// Wait until the operation has finished inside the store or is parked at the inner gate;
+    /// returns Some(true) when parked.
+    pub fn wait_done_or_inner(&self, id: usize, timeout: Duration) -> Option<bool> {
+        let t0 = Instant::now();
+        let mut st = self.m.lock().unwrap();
+        loop {
+            if st.ops[id].done {
+                return Some(false);
+            }
+            if st.ops[id].at_inner {
+                return Some(true);
+            }
+            let left = timeout.checked_sub(t0.elapsed())?;
+            st = self.cv.wait_timeout(st, left).unwrap().0;
+        }
+    }
+    pub fn release_inner(&self, id: usize) {
+        let mut st = self.m.lock().unwrap();
+        st.ops[id].released_inner = true;
+        self.cv.notify_all();
+    }
+    pub fn set_inner_gated(&self, on: bool) {
+        self.m.lock().unwrap().inner_gated = on;
+    }
     pub fn release_after(&self, id: usize) {
         let mut st = self.m.lock().unwrap();
         st.ops[id].released_after = true;
@@ -183,6 +245,7 @@ impl Gate {
         st.gated = false;
         for o in st.ops.iter_mut() {
             o.released_before = true;
+            o.released_inner = true;
             o.released_after = true;
         }
         self.cv.notify_all();
